@@ -11,6 +11,7 @@
 From Coq Require Import String List ZArith Bool Arith Permutation Sorted.
 From TM Require Import C19.Query C19.Model C19.Proofs C19.SearchModel C19.SearchProofs.
 From TM Require Import C19.BlockModel C19.BlockProofs C19.SearchRangeProofs.
+From TM Require Import C19.PhaseModel C19.PhaseProofs.
 Import ListNotations.
 Local Open Scope nat_scope.
 
@@ -84,6 +85,44 @@ Theorem C19_tables_consistent :
   forall Q ord, order_ok ord -> forall ops, wf (run Q ord ops).
 Proof. exact wf_run. Qed.
 Print Assumptions C19_tables_consistent.
+
+(* 4b. API calls IN FLIGHT AT ONCE (PhaseModel.v: every Subscribe / Unsubscribe / UnsubscribeAll
+   call is split into its check phase under mtx.RLock, the hand-over of its command to the
+   server loop, and its post phase under mtx.Lock; [prun xs] is the state after the schedule
+   [xs] of such phase steps — any number of calls of any clients, checks on stale registrations
+   included — and of capacity cancellations by send; code as repaired for F59/F60).  For EVERY
+   schedule in which the post phases run in the order the loop took the commands: whenever no
+   call is in flight, Server.subscriptions (what Subscribe / Unsubscribe / UnsubscribeAll /
+   NumClientSubscriptions consult) holds exactly the pairs that are in the loop's table or were
+   cancelled there for capacity and not unsubscribed since.
+   On the ORIGINAL Unsubscribe the statement is false (C19_original_bookkeeping_refuted, F59: the
+   post phase empties the inner map read during the check and deletes the client's current
+   entry).  The premise on the order of the post phases cannot be dropped, for the repaired and
+   the original code alike (C19_bookkeeping_post_order_needed): a post phase that overtakes the
+   post phase of an earlier command is a matter of goroutine scheduling between `s.cmds <- cmd`
+   and `s.mtx.Lock()`; it is neither forced by the harness nor excluded by the code. *)
+Theorem C19_bookkeeping_consistent : forall xs : list pstep,
+  forallb in_order xs = true ->
+  quiescent (prun xs) = true ->
+  forall k, kmem k (srv (prun xs)) = kmem k (tab (prun xs)) || kmem k (dropped (prun xs)).
+Proof. exact PhaseProofs.C19_bookkeeping_consistent. Qed.
+Print Assumptions C19_bookkeeping_consistent.
+
+Example C19_bookkeeping_consistent_nonvacuous :
+  forallb in_order sched_k = true /\ quiescent (prun sched_k) = true /\
+  srv (prun sched_k) = [(0, 1)] /\ tab (prun sched_k) = [(0, 1)].
+Proof. exact PhaseProofs.C19_bookkeeping_consistent_nonvacuous. Qed.
+
+Example C19_original_bookkeeping_refuted :
+  o_waiting (orun sched_k) = [] /\ o_posting (orun sched_k) = [] /\
+  omem (0, 1) (o_srv (orun sched_k)) = false /\ ohas_client 0 (o_srv (orun sched_k)) = false /\
+  kmem (0, 1) (o_tab (orun sched_k)) = true.
+Proof. exact PhaseProofs.C19_original_bookkeeping_refuted. Qed.
+
+Example C19_bookkeeping_post_order_needed :
+  quiescent (prun sched_v) = true /\
+  kmem (0, 1) (srv (prun sched_v)) = false /\ kmem (0, 1) (tab (prun sched_v)) = true.
+Proof. exact PhaseProofs.C19_bookkeeping_post_order_needed. Qed.
 
 (* ------------------------------------------------------------------ indexer half
    (state/txindex/kv; model in SearchModel.v: the store is the list of (key segments, hash)
